@@ -297,3 +297,126 @@ Example C19_nonvacuous_reinit :
   t_err (after false) = 0 /\ t_err (after true) = 0 /\
   run (term_new 2 5) [97; 127; 98]%N = run (term_new 2 5) [97; 98]%N.
 Proof. vm_compute. repeat split; reflexivity. Qed.
+
+(* ---------- the window / drawing code of vi.c and led.c ON THE TRANSLATED C TEXT (tools/c2clite.d/99zzzzz_draw.list, coq/GenCFuncs.v) ----------
+   Every statement is about CLiteExt.callx for EVERY oracle `ext` that answers the untranslated terminal functions as the kernel of
+   coq/TrDrawBase.v does (kernel_ok: term_rows / term_cols / conf_hlline answer h / cols / hl; term_pos, term_room, led_print, syn_context,
+   vi_drawmsg, term_record, term_commit append their record to the log block kl -- led_print after READING the two strings it is handed,
+   every cell checked), on every memory that holds the window globals and the buffer (draw_mem). *)
+From NV Require Import CLite CLiteProps GenCFuncs CLiteExt DrawWinDefs DrawWinProps TrDrawBase TrDrawWin TrDrawRow TrDrawEx.
+Local Open Scope Z_scope.
+
+(* vi_wfix(): xrow and xtop afterwards are DrawDefs.wfix of the values before, for ALL xrow / xtop / xrows / buffer lengths (so, by
+   C19_window_follows, the cursor line is a line of the buffer inside the window; xtop is kept when xrow was inside: wfix_stable);
+   xoff is what ren_noeol answers for the cursor line *)
+Theorem C19_tr_vi_wfix : forall ext kl h cols hl bl bln lbs lines ft d fuel m v o,
+  kernel_ok ext kl h cols hl -> 0 <= h <= 2147483647 ->
+  draw_mem m kl v bl bln lbs lines ft -> i32b (v_xrow v) -> 0 <= v_xtop v -> v_xtop v + h + h / 2 <= 2147483647 -> i32b (v_xoff v) -> i32b o ->
+  let '(t, r) := wfix (v_xtop v) (v_xrow v) h (blen lines) in
+  let m2 := CLiteProps.upd (CLiteProps.upd m G_xrow [VInt r]) G_xtop [VInt t] in
+  callx ext cprog fuel (S (S d)) F_ren_noeol [line_ptr lbs lines r; VInt (v_xoff v)] m2 = Ok (VInt o, m2) ->
+  callx ext cprog fuel (S (S (S d))) F_vi_wfix [] m = Ok (VUndef, CLiteProps.upd m2 G_xoff [VInt o]) /\
+  draw_mem (CLiteProps.upd m2 G_xoff [VInt o]) kl (set_xoff (set_xtop (set_xrow v r) t) o) bl bln lbs lines ft.
+Proof. intros ext kl h cols hl bl bln lbs lines ft d fuel m v o Hk Hh. exact (tr_vi_wfix ext kl h cols hl Hk bl bln lbs lines ft d fuel Hh m v o). Qed.
+Print Assumptions C19_tr_vi_wfix.
+
+(* ^E / ^D / ^F and ^Y / ^U / ^B: the model's new xtop / xrow with the clamping at both ends of the buffer *)
+Theorem C19_tr_vi_scrollforward : forall ext kl h cols hl m v bl bln lbs lines ft d fuel cnt,
+  kernel_ok ext kl h cols hl -> draw_mem m kl v bl bln lbs lines ft ->
+  i32b (v_xtop v) -> i32b (v_xrow v) -> i32b cnt -> i32b (v_xtop v + cnt) ->
+  let '(r, t, w) := scroll_fwd (blen lines) (v_xtop v) (v_xrow v) cnt in
+  callx ext cprog fuel (S (S d)) F_vi_scrollforward [VInt cnt] m
+  = Ok (VInt r, if r =? 0 then CLiteProps.upd (CLiteProps.upd m G_xtop [VInt t]) G_xrow [VInt w] else m).
+Proof. intros ext kl h cols hl m v bl bln lbs lines ft d fuel cnt Hk Hm. exact (tr_vi_scrollforward ext kl m v bl bln lbs lines ft Hm d fuel cnt). Qed.
+Print Assumptions C19_tr_vi_scrollforward.
+Theorem C19_tr_vi_scrollbackward : forall ext kl h cols hl m v bl bln lbs lines ft d fuel cnt,
+  kernel_ok ext kl h cols hl -> draw_mem m kl v bl bln lbs lines ft ->
+  0 <= v_xtop v <= 2147483647 -> i32b (v_xrow v) -> i32b cnt -> 0 <= cnt -> i32b (v_xtop v - cnt) -> 0 <= h -> i32b (v_xtop v + h) ->
+  let '(r, t, w) := scroll_bwd h (v_xtop v) (v_xrow v) cnt in
+  callx ext cprog fuel (S (S d)) F_vi_scrollbackward [VInt cnt] m
+  = Ok (VInt r, if r =? 0 then CLiteProps.upd (CLiteProps.upd m G_xtop [VInt t]) G_xrow [VInt w] else m).
+Proof. intros ext kl h cols hl m v bl bln lbs lines ft d fuel cnt Hk Hm. exact (tr_vi_scrollbackward ext kl h cols hl Hk m v bl bln lbs lines ft Hm d fuel cnt). Qed.
+Print Assumptions C19_tr_vi_scrollbackward.
+
+(* led_pos / vi_pos: the column flip of a right-to-left context *)
+Theorem C19_tr_led_pos : forall ext m dir pos b e d fuel, i32b (pos - b) -> i32b (e - pos) -> i32b (e - pos - 1) ->
+  callx ext cprog fuel (S d) F_led_pos [VInt dir; VInt pos; VInt b; VInt e] m = Ok (VInt (flip_pos dir pos b e), m).
+Proof. exact tr_led_pos. Qed.
+Print Assumptions C19_tr_led_pos.
+Theorem C19_tr_vi_pos : forall ext kl h cols hl m m' s pos dir xleft d fuel, kernel_ok ext kl h cols hl ->
+  callx ext cprog fuel (S d) F_dir_context [match s with VInt 0 => VPtr G_lit__0 0 | _ => s end] m = Ok (VInt dir, m') ->
+  (s = VInt 0 \/ exists b o, s = VPtr b o) -> cell_at m' G_xleft xleft ->
+  i32b xleft -> i32b (pos - xleft) -> i32b (xleft + cols) -> i32b (xleft + cols - pos) -> i32b (xleft + cols - pos - 1) ->
+  callx ext cprog fuel (S (S d)) F_vi_pos [s; VInt pos] m = Ok (VInt (DrawWinDefs.vi_pos dir pos xleft cols), m').
+Proof. exact tr_vi_pos. Qed.
+Print Assumptions C19_tr_vi_pos.
+
+(* vi_drawrow(i): led_print is called with the text of line i (the filler "~" past the end, "" on row 0 of the empty buffer), the screen
+   row i - xtop, xleft and the file type name; syn_context(conf_hlline()) before it exactly on the cursor line when xhll is set,
+   syn_context(0) after it; nothing else in memory changes *)
+Theorem C19_tr_vi_drawrow : forall ext kl h cols hl v bl bln lbs lines ft d fuel m lg i,
+  kernel_ok ext kl h cols hl -> v_ok v -> draw_mem m kl v bl bln lbs lines ft -> log_at m kl lg -> i32b i -> i32b (i - v_xtop v) ->
+  callx ext cprog fuel (S (S (S d))) F_vi_drawrow [VInt i] m
+  = Ok (VUndef, mlog m kl (lg ++ drawrow_evs lines ft (v_xtop v) (v_xrow v) (v_xleft v) (v_xhll v) (v_xhl v) hl i)).
+Proof. intros ext kl h cols hl v bl bln lbs lines ft d fuel m lg i Hk Hv. exact (tr_vi_drawrow ext kl h cols hl Hk v bl bln lbs lines ft d fuel Hv m lg i). Qed.
+Print Assumptions C19_tr_vi_drawrow.
+
+(* vi_drawagain(xcol, row): exactly the rows xtop .. xtop + xrows - 1, each once, in order (row < 0), or the one row `row`; then vi_drawmsg *)
+Theorem C19_tr_vi_drawagain : forall ext kl h cols hl v bl bln lbs lines ft d fuel m lg xcol row,
+  kernel_ok ext kl h cols hl -> v_ok v -> draw_mem m kl v bl bln lbs lines ft -> 0 <= h -> 0 <= v_xtop v -> v_xtop v + h <= 2147483647 ->
+  log_at m kl lg -> (Z.to_nat h < fuel)%nat ->
+  callx ext cprog fuel (S (S (S (S d)))) F_vi_drawagain [xcol; VInt row] m
+  = Ok (VUndef, mlog m kl (lg ++ ag_evs (drawrow_evs lines ft (v_xtop v) (v_xrow v) (v_xleft v) (v_xhll v) (v_xhl v) hl) row (v_xtop v) (Z.to_nat h) ++ [TMsg])).
+Proof. intros ext kl h cols hl v bl bln lbs lines ft d fuel m lg xcol row Hk Hv Hm Hh Ht Hth. exact (tr_vi_drawagain ext kl h cols hl Hk v bl bln lbs lines ft d fuel Hv m Hm Hh Ht Hth lg xcol row). Qed.
+Print Assumptions C19_tr_vi_drawagain.
+Theorem C19_tr_drawagain_window : forall ext kl h cols hl v bl bln lbs lines ft d fuel m lg xcol s,
+  kernel_ok ext kl h cols hl -> v_ok v -> draw_mem m kl v bl bln lbs lines ft -> 0 <= h -> 0 <= v_xtop v -> v_xtop v + h <= 2147483647 ->
+  log_at m kl lg -> (Z.to_nat h < fuel)%nat -> s_ctx s = 0 -> length (s_rows s) = Z.to_nat h ->
+  exists evs, callx ext cprog fuel (S (S (S (S d)))) F_vi_drawagain [xcol; VInt (-1)] m = Ok (VUndef, mlog m kl (lg ++ evs)) /\
+    s_rows (replay (Z.to_nat h) s evs) = win rowimg (row_img lines ft (v_xrow v) (v_xleft v) (v_xhll v) (v_xhl v) hl) (Z.to_nat (v_xtop v)) (Z.to_nat h).
+Proof. intros ext kl h cols hl v bl bln lbs lines ft d fuel m lg xcol s Hk Hv Hm Hh Ht Hth. exact (tr_drawagain_window ext kl h cols hl Hk v bl bln lbs lines ft d fuel Hv m Hm Hh Ht Hth lg xcol s). Qed.
+Print Assumptions C19_tr_drawagain_window.
+
+(* vi_drawupdate(otop): term_pos(0, 0), term_room(otop - xtop), then exactly the min(|otop - xtop|, xrows) rows the scroll exposed, then
+   vi_drawmsg; nothing when the top did not move *)
+Theorem C19_tr_vi_drawupdate : forall ext kl h cols hl v bl bln lbs lines ft d fuel m lg otop,
+  kernel_ok ext kl h cols hl -> v_ok v -> draw_mem m kl v bl bln lbs lines ft -> 0 <= h -> 0 <= v_xtop v -> v_xtop v + h <= 2147483647 ->
+  log_at m kl lg -> (Z.to_nat h < fuel)%nat -> 0 <= otop <= 2147483647 ->
+  callx ext cprog fuel (S (S (S (S d)))) F_vi_drawupdate [VInt otop] m
+  = Ok (VUndef, mlog m kl (lg ++ update_evs (drawrow_evs lines ft (v_xtop v) (v_xrow v) (v_xleft v) (v_xhll v) (v_xhl v) hl) h otop (v_xtop v))).
+Proof. intros ext kl h cols hl v bl bln lbs lines ft d fuel m lg otop Hk Hv Hm Hh Ht Hth. exact (tr_vi_drawupdate ext kl h cols hl Hk v bl bln lbs lines ft d fuel Hv m Hm Hh Ht Hth lg otop). Qed.
+Print Assumptions C19_tr_vi_drawupdate.
+(* ... and the invariant: the calls the C text makes turn the text rows that show the window of the buffer at the OLD top into the text
+   rows that show the window at the NEW top (term_room scrolling the rows as DrawDefs.term_room does), for every old and new top, and no
+   led_print lands outside the text rows *)
+Theorem C19_tr_drawupdate_window : forall ext kl h cols hl v bl bln lbs lines ft d fuel m lg otop cur,
+  kernel_ok ext kl h cols hl -> v_ok v -> draw_mem m kl v bl bln lbs lines ft -> 0 <= h -> 0 <= v_xtop v -> v_xtop v + h <= 2147483647 ->
+  log_at m kl lg -> (Z.to_nat h < fuel)%nat -> 0 <= otop <= 2147483647 ->
+  let f := row_img lines ft (v_xrow v) (v_xleft v) (v_xhll v) (v_xhl v) hl in
+  exists evs, callx ext cprog fuel (S (S (S (S d)))) F_vi_drawupdate [VInt otop] m = Ok (VUndef, mlog m kl (lg ++ evs)) /\
+    s_rows (replay (Z.to_nat h) (mkScr cur 0 (win rowimg f (Z.to_nat otop) (Z.to_nat h))) evs) = win rowimg f (Z.to_nat (v_xtop v)) (Z.to_nat h) /\
+    forallb (print_inside (Z.to_nat h)) evs = true.
+Proof. intros ext kl h cols hl v bl bln lbs lines ft d fuel m lg otop cur Hk Hv Hm Hh Ht Hth. exact (tr_drawupdate_window ext kl h cols hl Hk v bl bln lbs lines ft d fuel Hv m Hm Hh Ht Hth lg otop cur). Qed.
+Print Assumptions C19_tr_drawupdate_window.
+
+(* the hypotheses are satisfiable and the translated text RUNS: three lines "ab" "c" "d", a window of 2 rows; the kernel itself is the oracle *)
+Definition retm (r : res (val * mem)) : option block := match r with Ok (_, m) => nth_error m ex_kl | Err _ => None end.
+Example C19_tr_draw_runs :
+  draw_mem (ex_mem 1 1 1) ex_kl (ex_v 1 1 1) ex_base (ex_base + 1) [ex_base + 2; ex_base + 3; ex_base + 4]%nat ex_lines [] /\
+  (* the window moved down by one (otop 0 -> xtop 1): delete one line at the top, draw the bottom row (line 2: "d") *)
+  retm (callx (term_kernel ex_kl 2 80 7) cprog 50 10 F_vi_drawupdate [VInt 0] (ex_mem 1 1 0))
+    = Some (enc_log [TPos 0 0; TRoom (-1); TPrint [100; 10]%N 1 0 []; TCtx 0; TMsg]) /\
+  (* the window moved up by five (otop 6 -> xtop 1): both rows are drawn, the cursor line (1: "c") under the highlight attribute 7 *)
+  retm (callx (term_kernel ex_kl 2 80 7) cprog 50 10 F_vi_drawupdate [VInt 6] (ex_mem 1 1 1))
+    = Some (enc_log [TPos 0 0; TRoom 5; TCtx 7; TPrint [99; 10]%N 0 0 []; TCtx 0; TPrint [100; 10]%N 1 0 []; TCtx 0; TMsg]) /\
+  (* a full repaint at xtop 2: line 2 and the filler *)
+  retm (callx (term_kernel ex_kl 2 80 7) cprog 50 10 F_vi_drawagain [VInt 0; VInt (-1)] (ex_mem 2 2 0))
+    = Some (enc_log [TPrint [100; 10]%N 0 0 []; TCtx 0; TPrint [126]%N 1 0 []; TCtx 0; TMsg]) /\
+  (* vi_scrollforward(5) from the top: clamped to the last line; vi_scrollbackward(1) at the top: refused *)
+  option_map fst (match callx (term_kernel ex_kl 2 80 7) cprog 50 10 F_vi_scrollforward [VInt 5] (ex_mem 0 0 0) with Ok (r, m) => Some (r, (nth_error m G_xtop, nth_error m G_xrow)) | _ => None end) = Some (VInt 0) /\
+  match callx (term_kernel ex_kl 2 80 7) cprog 50 10 F_vi_scrollforward [VInt 5] (ex_mem 0 0 0) with Ok (_, m) => (nth_error m G_xtop, nth_error m G_xrow) | _ => (None, None) end
+    = (Some [VInt 2], Some [VInt 2]) /\
+  option_map fst (match callx (term_kernel ex_kl 2 80 7) cprog 50 10 F_vi_scrollbackward [VInt 1] (ex_mem 0 0 0) with Ok (r, m) => Some (r, m) | _ => None end) = Some (VInt 1) /\
+  scroll_fwd 3 0 0 5 = (0, 2, 2) /\ wfix 0 2 2 3 = (1, 2).
+Proof. split; [exact (ex_draw_mem 1 1 1)|]. vm_compute. repeat split; reflexivity. Qed.
+Local Close Scope Z_scope.
